@@ -62,12 +62,39 @@ func Run(run *kernel.Run, p Params) {
 	// depth 2 (thorough tier): up to 8 callers x 8 operations
 	mt, mo := maxTasks+2*(kernel.Depth-1), maxOps+2*(kernel.Depth-1)
 	nTasks := 2 + t.Choose("cfg", "ntasks", mt-1)
+	// a crowd: one run in eight has 9..12 callers with one operation each,
+	// nearly all of the focus kinds (bounded pools, semaphores and fallback
+	// paths of a library only show when more callers are in flight than it
+	// planned for)
+	crowd := t.Chance("cfg", "crowd", 1, 6)
+	if crowd {
+		nTasks = 9 + t.Choose("cfg", "ncrowd", 4)
+		mo = 1
+		run.Fault("crowd_of_callers")
+		// ... all doing variants of one thing: the focus becomes the family
+		// of the first focus kind (every kind whose name starts the same way:
+		// "MultiScalarMult", "Sign", "cold:", ...)
+		family := opKinds[focus[0]].name
+		if i := strings.IndexAny(family, "(:/ +"); i > 0 {
+			family = family[:i]
+		}
+		if t.Bool("cfg", "crowd.family") {
+			focus = focus[:0]
+			for _, k := range kinds {
+				if strings.HasPrefix(opKinds[k].name, family) {
+					focus = append(focus, k)
+				}
+			}
+		} else {
+			focus = focus[:1] // ... or all exactly the same thing
+		}
+	}
 	ops := make([][]*Op, nTasks)
 	for ti := 0; ti < nTasks; ti++ {
 		st := fmt.Sprintf("t%d.ops", ti)
 		for len(ops[ti]) < mo && (t.Choose(st, "more", 4+2*(kernel.Depth-1)) != 0 || len(ops[ti]) == 0) {
 			o := &Op{}
-			if t.Chance(st, "offfocus", 1, 4) {
+			if t.Chance(st, "offfocus", 1, 4) && !(crowd && ti > 0) {
 				o.Kind = kinds[t.Choose(st, "kind", len(kinds))]
 			} else {
 				o.Kind = focus[t.Choose(st, "fkind", len(focus))]
@@ -134,6 +161,20 @@ func Run(run *kernel.Run, p Params) {
 	sort.Ints(costs)
 	typical := costs[len(costs)/2]
 	cfg := kernel.DrawSchedCfg(t, nTasks, estSteps, typical)
+	if crowd && t.Chance("cfg", "crowd.overlap", 3, 4) {
+		// the point of a crowd is that everybody is in flight at once:
+		// round robin or uniform quanta well below one operation
+		cfg.Policy = []int{kernel.PolRR, kernel.PolUniform}[t.Choose("cfg", "crowd.policy", 2)]
+		if m := typical >> uint(3+t.Choose("cfg", "crowd.quantum_log2", 4)); m < cfg.Mean {
+			cfg.Mean = m
+		}
+		if lo := int(estSteps / 40000); cfg.Mean < lo {
+			cfg.Mean = lo
+		}
+		if cfg.Mean < 1 {
+			cfg.Mean = 1
+		}
+	}
 	s := kernel.NewSched(t, cfg, p.NSites)
 	results := make([][]string, nTasks)
 	for ti := 0; ti < nTasks; ti++ {
